@@ -104,9 +104,9 @@ Definition do_xop (sc : env_scn) (s : elog * env nat) (o : xop) : (elog * env na
   | OPause a => ext (CPause a)
   | OUnpause a => ext (CUnpause a)
   | OCancel a => ext (CCancel a)
-  | OStep => match step ws ex s with
+  | OStep => match step ws ex (fun _ => false) s with
              | None => (s, 2) | Some (Ok s') => (s', 0) | Some (Err s') => (s', 1) end
-  | ORun d => match run ws ex env_fuel d s with
+  | ORun d => match run ws ex (fun _ => false) env_fuel d s with
               | None => (s, 3) | Some (Ok s') => (s', 0) | Some (Err s') => (s', 1) end
   end.
 
